@@ -107,3 +107,6 @@ LEVEL_NOTE = ("C07_numb_in_list is proved at full strength (numbers from parse_n
               "gB's initNumb_roundtrip = C10_init_text_roundtrip / C10_autoinit_text_roundtrip; C07_numb_in_list_full states it together with the serialise -> deserialise round trip). Trusted: word-level buffer "
               "abstraction, translator extension, SQLite's faithful storage of bound values, executors/oracles.")
 TECHNIQUE = "Lean 4 proof (mutual structural induction with cost-bounded fuel; invariant of the write buffer) + differential execution"
+
+# ---- independent review rA (notes/review/rA-review.md) ----
+LEAN_MODULES += ["CifModel.Props.ReviewRC07"]
